@@ -479,7 +479,37 @@ pub fn run(ctx: &Ctx) -> Report {
                 let all = [1usize, 2, 3, 4, 8, 16];
                 vec![rng.pick(&all), rng.pick(&all)]
             };
+            // with same_file_system, sometimes one more root on ANOTHER file
+            // system (/dev/shm, when the sandbox has it): every root is
+            // measured against its own device
+            let mut shm: Option<std::path::PathBuf> = None;
+            if cfg.same_file_system && rng.chance(1, 2) {
+                let d = std::path::PathBuf::from(format!(
+                    "/dev/shm/rgmon-c06-{}-{}-{}",
+                    std::process::id(),
+                    i,
+                    rng.below(1 << 30)
+                ));
+                if fs::create_dir_all(d.join("other/sub")).is_ok()
+                    && fs::write(d.join("other/o1.txt"), b"x").is_ok()
+                    && fs::write(d.join("other/sub/o2.rs"), b"xy").is_ok()
+                {
+                    let r = d.join("other").to_string_lossy().into_owned();
+                    if rng.bool() {
+                        cfg.roots.insert(0, r);
+                    } else {
+                        cfg.roots.push(r);
+                    }
+                    rep.count("walks_with_a_root_on_another_file_system");
+                    shm = Some(d);
+                } else {
+                    let _ = fs::remove_dir_all(&d);
+                }
+            }
             check_case(&tree, &cfg, &base, &threads, rep);
+            if let Some(d) = shm {
+                let _ = fs::remove_dir_all(&d);
+            }
         }
         let _ = fs::remove_dir_all(&private);
     })
@@ -491,7 +521,23 @@ pub fn replay(v: &Value) -> Report {
     let cfg = WalkCfg::from_json(&v["cfg"]);
     let (private, base) = treegen::fresh_dir("c06r", 0);
     if tree.materialise(&base).is_ok() {
+        // a root on the other file system is rebuilt as the run had it
+        let mut made = vec![];
+        for r in &cfg.roots {
+            if r.starts_with("/dev/shm/rgmon-c06-") {
+                let d = std::path::PathBuf::from(r);
+                let _ = fs::create_dir_all(d.join("sub"));
+                let _ = fs::write(d.join("o1.txt"), b"x");
+                let _ = fs::write(d.join("sub/o2.rs"), b"xy");
+                if let Some(p) = d.parent() {
+                    made.push(p.to_path_buf());
+                }
+            }
+        }
         check_case(&tree, &cfg, &base, &[1, 2, 4, 8], &mut rep);
+        for d in made {
+            let _ = fs::remove_dir_all(d);
+        }
     }
     let _ = fs::remove_dir_all(&private);
     rep
